@@ -107,10 +107,72 @@ def model(case):
     raise AssertionError("sequence shorter than limit+1")
 
 
+def run_overlap(case) -> Outcome:
+    """two overlapping calls of ONE wrapped async function, each with its own scripted outcomes: the attempts of one
+    call must not be counted against (or reset by) the other"""
+    from haiway import retry
+
+    out = Outcome()
+    limit = case["limit"]
+    seqs = [case["seq"], case["seq2"]]
+    calls = {0: [], 1: []}
+    produced = {0: [], 1: []}
+    results: dict = {}
+
+    async def main(loop):
+        async def fn(cid):
+            i = len(calls[cid])
+            calls[cid].append(loop.time())
+            await asyncio.sleep(case.get("step", 0.125) * (1 + cid))  # suspends: the two calls interleave
+            kind = seqs[cid][i] if i < len(seqs[cid]) else "ok"
+            if kind == "ok":
+                v = ("value", cid, i)
+                produced[cid].append(v)
+                return v
+            e = _make_exc(kind, i, 1)
+            produced[cid].append(e)
+            raise e
+
+        wrapped = retry(limit=limit, catching=CaughtA)(fn)
+
+        async def one(cid):
+            try:
+                results[cid] = ("ret", await wrapped(cid))
+            except BaseException as exc:  # noqa: BLE001
+                results[cid] = ("exc", exc)
+
+        await asyncio.gather(one(0), one(1))
+
+    res = vloop.run(main)
+    if res.outcome == "raise":
+        raise res.value
+    if res.outcome == "hang":
+        out.violate("term", "C14.term/hang/overlap", "")
+        return out
+    for cid in (0, 1):
+        exp_calls, term = model({"seq": seqs[cid], "limit": limit, "catching": "class"})
+        if len(calls[cid]) != exp_calls:
+            out.violate(
+                "attempts",
+                f"C14.attempts/async/overlapping-calls/{'more' if len(calls[cid]) > exp_calls else 'fewer'}",
+                f"call {cid}: invocations={len(calls[cid])} expected={exp_calls} seq={seqs[cid]} (other call: {seqs[1 - cid]}) limit={limit}",
+            )
+            continue
+        rk, rv = results[cid]
+        exp_obj = produced[cid][term]
+        if rv is not exp_obj:
+            out.violate("outcome", "C14.outcome/async/overlapping-calls/wrong-outcome", f"call {cid}: {results[cid]!r} expected {exp_obj!r}")
+    out.classes = ["overlapping-calls", "async"] + (["retried-failure"] if any(len(v) > 1 for v in calls.values()) else [])
+    out.nontrivial = any(len(v) > 1 for v in calls.values())
+    return out
+
+
 def run_case(case) -> Outcome:
     import haiway.helpers.retries as R
     from haiway import retry
 
+    if case.get("seq2") is not None:
+        return run_overlap(case)
     out = Outcome()
     limit = 1 if case["bare"] else case["limit"]
     case = dict(case, limit=limit)
@@ -329,6 +391,14 @@ def enumerate_cases(tier):
     for seq in itertools.product(OUTCOMES, repeat=3):
         for variant in ("sync", "async"):
             yield _case(variant, True, 1, "default", 1, {"k": "none"}, seq)
+    # two overlapping calls of one wrapped async function (limit 1..2, every pair of short outcome scripts)
+    short = ["ok", "caught", "uncaught"]
+    for limit in (1, 2):
+        for s1 in itertools.product(short, repeat=limit + 1):
+            for s2 in itertools.product(short, repeat=limit + 1):
+                c = _case("async", False, limit, "class", 1, {"k": "none"}, [*s1, "ok"])
+                c["seq2"] = [*s2, "ok"]
+                yield c
 
 
 def strategy(tier):
